@@ -268,33 +268,53 @@ C06_Step(pre, rec, post, gh) ==
 
 -----------------------------------------------------------------------------
 (* C07 redelegations: destination positions of pending redelegations out of the slashed validator *)
-\* the shares the callback must remove from position k for ledger entry x, at the destination's price at that moment
+\* Expected share removal, entry by entry in the order of the by-source index (time, denom, destination, delegator), each
+\* entry priced at the destination's share price at that moment: tokens of the validator (after the bonded slash) divided by
+\* its delegator shares still recorded.  sh: position -> shares left (rational), ds: <<validator, denom>> -> delegator shares
+\* left (rational).  Exact rationals; nothing of the code's rounding is assumed.
+RECURSIVE ExpectRedSlash(_, _, _, _, _, _)
+ExpectRedSlash(post, red, order, f, sh, ds) ==
+  IF order = <<>> THEN sh
+  ELSE
+    LET x == red[Head(order)]
+        k == <<x.d, x.dst, x.a>>
+        vk == <<x.dst, x.a>>
+    IN  IF k \notin DOMAIN sh \/ x.a \notin DOMAIN post.assets THEN ExpectRedSlash(post, red, Tail(order), f, sh, ds)
+        ELSE
+          LET vt == ValTokRat(post, x.dst, x.a)
+              want == RInt(TruncInt(DMulInt(f, x.amt)))
+              byPrice == IF IsZero(vt[1]) THEN sh[k] ELSE RMul(want, <<BMul(ds[vk][1], vt[2]), BMul(ds[vk][2], vt[1])>>)
+              take == IF RLt(sh[k], byPrice) THEN sh[k] ELSE byPrice
+          IN  ExpectRedSlash(post, red, Tail(order), f, [sh EXCEPT ![k] = RSub(@, take)], [ds EXCEPT ![vk] = RSub(@, take)])
+
+MergedRecord(gh, k) ==      \* K4: two pending redelegations of one delegator into one destination, due at the same time, from different sources
+  \E i, j \in DOMAIN gh.red : gh.red[i].d = k[1] /\ gh.red[i].dst = k[2] /\ gh.red[i].a = k[3] /\ gh.red[j].d = k[1] /\ gh.red[j].dst = k[2]
+                              /\ gh.red[j].a = k[3] /\ gh.red[i].due = gh.red[j].due /\ gh.red[i].src # gh.red[j].src
+
 C07_Red_Step(pre, rec, post, gh) ==
   IF ~(SlashValid(rec) /\ ValExists(pre, rec.args.v)) THEN {}
   ELSE
     LET v == rec.args.v  f == SlashFraction(rec)
         hit == {i \in DOMAIN gh.red : gh.red[i].src = v /\ gh.red[i].due >= pre.now}
+        order == SortBy(hit, LAMBDA i : <<gh.red[i].due, DenIdx(gh.red[i].a), ValIdx(gh.red[i].dst), DelIdx(gh.red[i].d), i>>)
         targets == {<<gh.red[i].d, gh.red[i].dst, gh.red[i].a>> : i \in hit}
         others == {k \in DOMAIN pre.dels : k \notin targets}
+        live == {k \in targets : k \in DOMAIN pre.dels}
+        sh0 == [k \in live |-> Rat(pre.dels[k].shares, "1")]
+        ds0 == [vk \in {<<k[2], k[3]>> : k \in live} |-> Rat(Get(Info(pre, vk[1]).dshares, vk[2]), "1")]
+        expect == ExpectRedSlash(post, gh.red, order, f, sh0, ds0)
+        got(k) == IF k \in DOMAIN post.dels THEN Rat(post.dels[k].shares, "1") ELSE RZero
+        \* difference in shares, valued in tokens at the destination's price before the removal
+        errTok(k) == LET d == RAbs(RSub(got(k), expect[k]))
+                         dsPre == Get(Info(pre, k[2]).dshares, k[3])
+                     IN  IF IsZero(dsPre) \/ k[3] \notin DOMAIN post.assets THEN RZero ELSE RMul(<<d[1], BMul(d[2], dsPre)>>, ValTokRat(post, k[2], k[3]))
         want(k) == BSum({i \in hit : <<gh.red[i].d, gh.red[i].dst, gh.red[i].a>> = k}, LAMBDA i : TruncInt(DMulInt(f, gh.red[i].amt)))
-        \* value of the removed shares, priced in the state after the bonded slash (post prices, pre shares)
-        removed(k) == IF k \in DOMAIN post.dels THEN BSub(pre.dels[k].shares, post.dels[k].shares) ELSE pre.dels[k].shares
-        removedVal(k) == IF k[3] \in DOMAIN post.assets /\ IsPos(removed(k))
-                         THEN LET ds == BAdd(Get(Info(post, k[2]).dshares, k[3]), removed(k))     \* the validator's delegator shares before the removal
-                              IN  IF IsZero(ds) THEN RZero ELSE RMul(Rat(removed(k), ds), ValTokRat(post, k[2], k[3]))
-                         ELSE RZero
-        heldVal(k) == IF k[3] \in DOMAIN post.assets
-                      THEN LET ds == BAdd(Get(Info(post, k[2]).dshares, k[3]), removed(k))
-                           IN  IF IsZero(ds) THEN RZero ELSE RMul(Rat(pre.dels[k].shares, ds), ValTokRat(post, k[2], k[3]))
-                      ELSE RZero
-        tol(k) == TolMax(pre, post, k[2], k[3], want(k))
+        tol(k) == BMul(BFromInt(Cardinality(hit)), TolMax(pre, post, k[2], k[3], want(k)))
     IN  UNION {Check("C07", k \notin DOMAIN post.dels \/ post.dels[k].shares = pre.dels[k].shares,
                      "slash of " \o v \o " changed the shares of position " \o ToString(k) \o ", which is not the destination of a pending redelegation out of it") : k \in others}
-        \cup UNION {IF k \notin DOMAIN pre.dels THEN {}
-                    ELSE Check("C07", LET target == IF RLt(heldVal(k), RInt(want(k))) THEN heldVal(k) ELSE RInt(want(k))
-                                      IN  Within(removedVal(k), target, tol(k)),
-                               "slash of " \o v \o " by " \o f \o ": destination position " \o ToString(k) \o " should lose floor(f*redelegated) = " \o want(k) \o
-                               " (capped at what it holds)") : k \in targets}
+        \cup UNION {CheckK("C07", RLe(errTok(k), RInt(tol(k))), IF MergedRecord(gh, k) THEN "K4" ELSE "",
+                           "slash of " \o v \o " by " \o f \o ": destination position " \o ToString(k) \o " did not lose the shares worth floor(f*redelegated) = " \o want(k) \o
+                           " (capped at what it holds) per pending entry") : k \in live}
 
 -----------------------------------------------------------------------------
 (* C04 position isolation *)
